@@ -100,7 +100,9 @@ def make_tree(m):
     idx = m["line"]
     if lines[idx] != m["old"]:      # the tree moved on a few lines since the catalogue was generated
         cands = [j for j in range(max(0, idx - 12), min(len(lines), idx + 13)) if lines[j] == m["old"]]
-        assert len(cands) == 1, (m["file"], idx, m["old"])
+        if len(cands) != 1:
+            shutil.rmtree(d, ignore_errors=True)
+            return None
         idx = cands[0]
     lines[idx] = m["new"]
     open(path, "wb").write("\r\n".join(lines).encode("utf-8"))
@@ -127,11 +129,14 @@ def run_checks(args):
     m, runs = args
     d = make_tree(m)
     res = {}
+    if d is None:
+        return (m, {"skipped": {"exit": -1, "clauses": ["line no longer exists"]}})
     try:
         for p in PROPS:
             c = subprocess.run([os.path.join(VERIF, "bin", "check"), p, "--runs", str(runs), "--workers", "2",
-                                "--no-evidence", "--max-report", "1"],
-                               env=dict(os.environ, VERIF_REPO=d), capture_output=True, text=True, timeout=3000)
+                                "--no-evidence", "--max-report", "1", "--no-selftest"],
+                               env=dict(os.environ, VERIF_REPO=d, VERIF_REPLAYS=os.path.join(d, "replays")),
+                               capture_output=True, text=True, timeout=3000)
             clauses = [l.split("clause=")[1].split()[0] for l in c.stdout.splitlines() if "clause=" in l]
             res[p] = {"exit": c.returncode, "clauses": clauses}
             if c.returncode == 2:
@@ -163,6 +168,11 @@ def main():
         random.Random(7).shuffle(muts)
         muts = muts[:n]
         results = []
+        if os.path.exists(sys.argv[3]):          # resume
+            results = json.load(open(sys.argv[3]))
+            done = set((m["file"], m["line"], m["new"]) for m in results)
+            muts = [m for m in muts if (m["file"], m["line"], m["new"]) not in done]
+            print("resuming: %d done, %d to go" % (len(results), len(muts)), flush=True)
         with ProcessPoolExecutor(max_workers=7) as ex:
             for k, (m, res) in enumerate(ex.map(run_checks, [(m, runs) for m in muts])):
                 caught = [p for p, r in res.items() if r["exit"] == 1]
